@@ -31,6 +31,16 @@
 (*       a surrogate pair) makes the analyzer thread panic instead of      *)
 (*       being clamped.                                                    *)
 (*   "AnalysisPanic": the initial analysis of a text in PanicTexts panics. *)
+(*                                                                         *)
+(* Status: "PositionUnwrap" described the tree up to /repo commit 5761f44  *)
+(* ("clamp request positions that lie outside of the document").  Since    *)
+(* then position_to_offset clamps, and the real code has to satisfy the    *)
+(* INTENDED machine (AsBuilt = {}) for every position class, the           *)
+(* UnwrapClasses included; trace validation accepts recordings with such   *)
+(* positions under AsBuilt = {} only if they were answered from the latest *)
+(* text.  MC_Lsp_AsBuilt.cfg is kept as the documentation of the old       *)
+(* defect (and the harness still recognises its behaviour should it come   *)
+(* back).                                                                  *)
 (***************************************************************************)
 EXTENDS Naturals, Sequences, FiniteSets, TLC
 
